@@ -462,9 +462,8 @@ std::optional<int64_t> CgroupContext::getPgScanCumulative(
   if (const auto& memstat = memory_stat(err)) {
     if (auto pos = memstat->find(kPgScan); pos != memstat->end()) {
       return std::make_optional(pos->second);
-    } else {
-      throw std::runtime_error("Bad memory.stat format: missing pgscan entry");
     }
+    // memory.stat without a pgscan entry: the statistic is unavailable
   }
   return std::nullopt;
 }
